@@ -26,6 +26,7 @@ ASSUMPTIONS = [
 TARGETS = {   # entity kind -> list of (class name stem, pybind cpp suffix, matlab name suffix, how to delete)
     'class_full': [('Cf', '', '', 'class')],
     'tclass': [('Tc', '<double>', 'Double', 'inst')],
+    'tclass2': [('Tw', '<int, double>', 'IntDouble', 'inst')],     # a C++ name with a blank in it
     'enumclass': [('Ce', '', '', 'class')],
     'derived': [('De', '', '', 'class')],
     'noctor': [('Nc', '', '', 'class')],
@@ -154,7 +155,7 @@ def check_case(case):
 
     def add(sig, msg):
         viol.append({'sig': sig, 'msg': '%s\n%s\n--- input ---\n%s' % (msg, ctxs, text_m)})
-    own = [cname + mlsuf, cname + pysuf] if how == 'inst' else [cname]
+    own = [cname + mlsuf, cname + pysuf, cname + pysuf.replace(' ', '')] if how == 'inst' else [cname]
     if cname == 'Same':
         own = None    # qualified matching, see belongs_same
     for g, blocks_fn, ign in (('pybind', py_blocks, py_ign), ('matlab', ml_blocks, ml_ign)):
@@ -201,10 +202,13 @@ def run(ctx):
     kinds_all = c10.KINDS
     combos = [[k] for k in TARGETS]
     for k in TARGETS:
-        for k2 in kinds_all:
+        for j, k2 in enumerate(kinds_all):
             if k2 != k:
-                combos.append([k, k2])
-                combos.append([k2, k])
+                # quick tier: both orders when the other kind is a target kind too, else one (alternating) order
+                if ctx.thorough or k2 in TARGETS or j % 2 == 0:
+                    combos.append([k, k2])
+                if ctx.thorough or k2 in TARGETS or j % 2 == 1:
+                    combos.append([k2, k])
     if ctx.thorough:
         for k in TARGETS:
             for k2, k3 in itertools.permutations([x for x in kinds_all if x != k], 2):
@@ -226,10 +230,10 @@ def run(ctx):
     return {
         'evaluations': len(uniq) * 6,
         'distinct_nontrivial': len(uniq),
-        'rule': 'modules of 1..%d entity kinds (11 kinds, 4 namespace scopes each); every class of 6 target kinds at every scope '
+        'rule': 'modules of 1..%d entity kinds (%d kinds, 4 namespace scopes each); every class of %d target kinds at every scope '
                 '(global, depth 1..3; for templated classes one instantiation) as the class to ignore / delete; 3 runs per '
                 'generator; evaluations = generator runs, distinct_nontrivial = (module, target) pairs'
-                % (3 if ctx.thorough else 2),
+                % (3 if ctx.thorough else 2, len(kinds_all) + 1, len(TARGETS)),
         'samples': [{'kinds': uniq[i]['kinds'], 'target': uniq[i]['stem'] + c10.tag(uniq[i]['path'])} for i in (0, len(uniq) // 2)],
         'exhaustive': True,
     }
